@@ -19,7 +19,9 @@ RULE = ("cases = declaration (Schema / DataClass / @parse function, 2-5 fields; 
         "subset of <=4 fields is invalid (bad nested elements, several bad elements, unions where every branch fails, failing &), "
         "required fields are missing and 0-2 unknown keys are present. Each input is parsed fail-fast, with collect_errors, and "
         "with max_errors 1,2,3; per top-level item a singleton probe decides whether that item fails on its own. Non-trivial = "
-        "at least one item fails (so reporting is exercised); distinct = (declaration shape, failing-item pattern, strategy).")
+        "at least one item fails (so reporting is exercised); distinct = (declaration shape, failing-item pattern, strategy). 1/8 of the cases: "
+        "@parse functions with *args / **kwargs; 1/16: a Schema with typed @property getters whose results may fail their return annotation "
+        "(fail-fast vs collect_errors with max_errors None/1/2).")
 ASSUMPTIONS = [
     "failing item = a provided field whose value is rejected in an otherwise valid input, a missing required field, or an unknown key rejected by addition=False (probes run fail-fast on the library itself)",
     "items are matched by field identity (output name or attribute name both accepted)",
@@ -118,9 +120,76 @@ def run_varargs(case, ctx):
             ctx.held(sig)
 
 
+PROP_SRC = """
+import utype
+from utype import Schema, Options, Field
+class P(Schema):
+    __options__ = Options(**OPTS)
+    a: int
+    b: str = ''
+    @property
+    def pr(self) -> int:          # the getter's result is converted to its annotation when the instance is built
+        return self.b
+    @property
+    def qr(self) -> {qt}:
+        return self.a
+"""
+
+
+def make_prop_case(rng):
+    """a Schema whose typed @property getters return a field value: the output of a getter may fail its annotation"""
+    opts = {}
+    if rng.random() < 0.3:
+        opts["data_first_search"] = rng.random() < 0.5
+    inputs = []
+    for _ in range(6):
+        d = {"a": rng.choice([5, "6", 700, "x", None])}
+        if rng.random() < 0.85:
+            d["b"] = rng.choice(["12", "abc", "", "7", "1.5", "x y"])
+        inputs.append(d)
+    return {"prop": True, "opts": opts, "qt": rng.choice(["str", "int", "utype.types.NegativeInt", "utype.types.PositiveInt"]), "inputs": inputs,
+            "extra": rng.choice([{"collect_errors": True}, {"collect_errors": True}, {"collect_errors": True, "max_errors": 1}, {"collect_errors": True, "max_errors": 2}])}
+
+
+def run_prop(case, ctx):
+    from utype import Options
+    ns = {"OPTS": dict(case["opts"])}
+    try:
+        exec(PROP_SRC.format(qt=case["qt"]), ns)
+    except Exception as e:
+        ctx.count("declaration_rejected:" + type(e).__name__)
+        return
+    P = ns["P"]
+    try:
+        for d in case["inputs"]:
+            x = run(lambda: dict(P.__from__(dict(d))))
+            y = run(lambda: dict(P.__from__(dict(d), options=Options(**dict(case["opts"], **case["extra"])))))
+            ctx.count("inputs")
+            ctx.count("inputs_with_typed_property_getters")
+            if x.kind not in ("ok", "parse") or y.kind not in ("ok", "parse"):
+                ctx.count("escape_left_to_C04")
+                continue
+            wit = {"declaration": PROP_SRC.format(qt=case["qt"]), "class_options": case["opts"], "input": short(d, 120), "fail_fast": repr(x),
+                   "collecting_options": case["extra"], "collect_errors": repr(y)}
+            sig = ("prop", case["qt"], tuple(sorted(case["opts"].items())), tuple(sorted(case["extra"].items())), x.ok, y.ok, str(d.get("b")))
+            if x.ok != y.ok:
+                ctx.violation("C10/verdict-changes/" + ("collect-accepts-what-fail-fast-rejects" if y.ok else "collect-rejects-what-fail-fast-accepts"),
+                              f"Schema with typed property getters, input {short(d, 100)}: fail-fast -> {x!r}; {case['extra']} -> {y!r}", wit, sig=sig)
+            elif x.ok and not V.approx_eq(x.value, y.value):
+                ctx.violation("C10/value-changes", f"Schema with typed property getters, input {short(d, 100)}: fail-fast {short(x.value, 100)} != collect {short(y.value, 100)}", wit, sig=sig)
+            elif not x.ok:
+                ctx.held(sig)
+            else:
+                ctx.trivial("accepted")
+    finally:
+        D.drop(P)
+
+
 def make_case(i, rng, tier):
     if i % 8 == 7:
         return make_varargs_case(rng)
+    if i % 16 == 3:
+        return make_prop_case(rng)
     base = rng.choice(["Schema", "Schema", "DataClass", "function"])
     n = rng.randint(2, 5)
     fields = []
@@ -202,6 +271,8 @@ def field_of(decl, item):
 def run_case(case, ctx):
     if case.get("varargs"):
         return run_varargs(case, ctx)
+    if case.get("prop"):
+        return run_prop(case, ctx)
     decl = case["decl"]
     built = []
     try:
